@@ -575,3 +575,27 @@ def flattening_keeps_defaults(ctx):
             ctx.ob(ok, u, '%s.%s flattens only an operand without a default of its own: %s' % (c.name, m, norm(nd.ast)[:60]),
                    '' if ok else 'the left operand\'s default= is dropped by the flattening', node=nd.ast)
     ctx.floor(2)
+
+
+@rule('C10.21')
+def defaults_are_evaluated_in_the_combinators_own_frame(ctx):
+    """a default= of Switch / And / Or / Not / Check is evaluated as an argument in the frame of the
+    combinator itself: ``arg_val(target, self.default, scope)`` with the method's own scope.  In a
+    chained child of that frame the default would be nested under the last failed key / operand
+    (its failure is rendered as that branch's error, and the key's own failure disappears)"""
+    p = ctx.program
+    n = 0
+    for u in p.package_units():
+        if u.module.short != 'matching' or u.cls is None or u.name not in ('glomit', '_glomit') or len(u.params) < 3:
+            continue
+        for c in calls_in(u):
+            if callee_qual(p, u, c) != 'core.arg_val' or len(c.args) < 3:
+                continue
+            if not (isinstance(c.args[1], ast.Attribute) and c.args[1].attr == 'default'):
+                continue
+            n += 1
+            ok = is_name(c.args[2], u.params[2]) and is_name(c.args[0], u.params[1])
+            ctx.ob(ok, u, '%s evaluates its default on its own target, in its own frame: %s' % (u.cls.name, norm(c)),
+                   '' if ok else 'the default runs in %s: a different frame (or target) than the combinator\'s' % norm(c.args[2])[:40], node=c)
+    ctx.require(n >= 4, 'default evaluations of the matching combinators not found (%d)' % n)
+    ctx.floor(4)
